@@ -1,8 +1,8 @@
 """C08 — every signature carries a fresh 40-byte salt.
 
 Decided on `sign::<N>` (both variants) by abstract interpretation with value labels:
- (1) the salt field of the returned Signature is, byte for byte, what one `fill_bytes` call on the whole
-     40-byte array wrote, and nothing wrote into that array afterwards;
+ (1) every byte of the salt field of the returned Signature is generator output (one draw or several; whole-array
+     fill or piecewise), and nothing else wrote into that array afterwards;
  (2) the generator that call draws from is the handle returned by `rand::thread_rng()` inside the same
      call of `sign` (OS-seeded, per call, per thread);
  (3) the salt does not depend on the message or the key;
@@ -55,20 +55,24 @@ def run(R):
         labs, unl, n = skeleton.labels_of(rst, salt)
         ent_labs = {l for l in labs if isinstance(l, tuple) and l[0] == "entropy"}
         fills = [e for e in ent if e[1] == "fill_bytes" and e[0] == inst.name]
-        R.check(len(ent_labs) == 1 and not unl and labs == ent_labs, "C08-salt", site,
-                f"every salt byte in the returned signature is output of one generator draw ({sorted(ent_labs)})",
+        R.check(len(ent_labs) >= 1 and not unl and labs == ent_labs, "C08-salt", site,
+                f"every salt byte in the returned signature is generator output ({sorted(ent_labs)})",
                 f"salt bytes carry labels {sorted(map(str, labs))}{' and some bytes are not generator output at all (constant / overwritten / partially filled)' if unl else ''}",
                 key=f"origin|{N}", data={"labels": sorted(map(str, labs)), "unlabelled": unl})
         R.check("m" not in labs and "sk" not in labs, "C08-indep", site, "salt bytes do not depend on the message or the secret key",
                 f"salt depends on {sorted(l for l in labs if l in ('m', 'sk'))}", key=f"indep|{N}")
         if ent_labs:
-            (_, origin, gsite, _draw), = list(ent_labs)[:1]
-            R.check(origin == "thread_rng" and gsite is not None and gsite[0] == inst.name, "C08-rng", site,
-                    f"the generator is rand::thread_rng() obtained inside this call of sign ({gsite})",
-                    f"the salt's generator has origin `{origin}` created at {gsite} — not a thread_rng() handle created by this call", key=f"rng|{N}")
-        whole = [e for e in fills if e[4] == 40 and type(e[3]) is Pt and not e[3].proj]
-        R.check(len(whole) >= 1, "C08-fill", site, f"fill_bytes is applied to a whole 40-byte array ({len(fills)} fill_bytes call(s) in sign)",
-                f"no fill_bytes call on a whole 40-byte array (calls: {[(e[1], e[4]) for e in fills]})", key=f"fill|{N}")
+            bad_g = [(l[1], l[2]) for l in ent_labs if not (l[1] == "thread_rng" and l[2] is not None and l[2][0] == inst.name)]
+            R.check(not bad_g, "C08-rng", site,
+                    f"the generator is rand::thread_rng() obtained inside this call of sign ({sorted({str(l[2]) for l in ent_labs})})",
+                    f"the salt's generator has origin `{bad_g[0][0] if bad_g else ''}` created at {bad_g[0][1] if bad_g else ''} — not a thread_rng() handle created by this call", key=f"rng|{N}")
+        # every one of the 40 positions, not only the summary: with distinguished bytes each must carry a generator label
+        per_byte = None
+        if salt.head and len(salt.head) == 40:
+            per_byte = [bool(rst.taint.get(h.vid)) and all(isinstance(l, tuple) and l[0] == "entropy" for l in rst.taint.get(h.vid)) for h in salt.head.values() if type(h) is I]
+        R.check(per_byte is None or (len(per_byte) == 40 and all(per_byte)), "C08-fill", site,
+                f"all 40 salt positions are generator output ({len(fills)} fill_bytes call(s) in sign; {'byte by byte' if per_byte else 'one summarised element covering the whole array'})",
+                f"salt positions that are not generator output: {[i for i, b in enumerate(per_byte or []) if not b][:8]}", key=f"fill|{N}")
         # (4) hashed string
         good = [a for a in absorbed if ent_labs and ent_labs <= a[0] and "m" in a[0]]
         R.check(len(absorbed) >= 1 and len(good) == len(absorbed), "C08-hash", site, "the absorbed string contains this call's salt and the message",
